@@ -182,3 +182,66 @@ def gen_wkc_sites(ctx):
         L.append("def STATE_CHECKS_BREAK_AFTER : Nat := %s" % m.group(1))
     L.append("end Ec.Gen.Wkc")
     return "\n".join(L) + "\n"
+
+
+def gen_wkc_eeprom(ctx):
+    """C11 facts about the EEPROM layers above the provider: every call of a provider method
+    (`read_chunk`, `write_word`, `clear_errors`) in eeprom/mod.rs and subdevice/eeprom.rs, and every call
+    of a range method (`read`, `read_exact`, `read_byte`, `write_all`) in subdevice/eeprom.rs and the
+    `eeprom_*` functions of subdevice/mod.rs, with what happens to its result: "?" (`.await?`: the error
+    ends the caller), "ret" (`.await` is the caller's tail expression: result handed on unchanged) or
+    "other" (anything else: a match, `.ok()`, `unwrap_or`, ... — the model assumes there is none)."""
+    repo, strip_comments, missing = ctx["repo"], ctx["strip_comments"], ctx["missing"]
+    root = os.path.join(repo, "src")
+
+    def calls(path, methods, only_fns=None):
+        text = strip_comments(_cut_tests(open(os.path.join(root, path)).read()))
+        # hooks compiled only under the verification cfg are not part of the crate
+        cut = text.find("#[cfg(ethercrab_verif)]")
+        if cut >= 0:
+            text = text[:cut]
+        fn_iter = [(m.start(), m.group(1)) for m in re.finditer(r"\bfn\s+(\w+)", text)]
+        out = []
+        for m in re.finditer(r"\.(%s)\s*\(" % "|".join(methods), text):
+            fn = _fn_at(fn_iter, m.start())
+            if only_fns is not None and not only_fns(fn):
+                continue
+            depth, j = 0, m.end() - 1
+            while j < len(text):
+                if text[j] == "(":
+                    depth += 1
+                elif text[j] == ")":
+                    depth -= 1
+                    if depth == 0:
+                        break
+                j += 1
+            tail = text[j + 1:j + 40]
+            if re.match(r"\s*\.await\s*\?", tail):
+                how = "?"
+            elif re.match(r"\s*\.await\s*\}", tail):
+                how = "ret"
+            else:
+                how = "other"
+            out.append((path, fn, m.group(1), how))
+        return out
+
+    prov = ["read_chunk", "write_word", "clear_errors"]
+    rng = ["read", "read_exact", "read_byte", "write_all"]
+    provider_calls = calls("eeprom/mod.rs", prov) + calls("subdevice/eeprom.rs", prov)
+    range_calls = calls("subdevice/eeprom.rs", rng) + calls("subdevice/mod.rs", rng, lambda fn: fn.startswith("eeprom_"))
+    if len(provider_calls) < 5:
+        missing.append("EEPROM provider call sites (found %d)" % len(provider_calls))
+    if len(range_calls) < 5:
+        missing.append("EEPROM range call sites (found %d)" % len(range_calls))
+
+    def lst(rows):
+        return "[\n" + ",\n".join('  ("%s", "%s", "%s", "%s")' % r for r in rows) + "\n]"
+
+    L = ["-- REGENERATED by /verif/tools/extract.py (extract_wkc.py) from /repo on every run. Do not edit.",
+         "namespace Ec.Gen.WkcEeprom",
+         "/-- (file, enclosing fn, provider method, fate of the result) of every provider call above the provider. -/",
+         "def providerCalls : List (String × String × String × String) := " + lst(provider_calls),
+         "/-- the same for the calls of `EepromRange` methods by the SubDevice layer. -/",
+         "def rangeCalls : List (String × String × String × String) := " + lst(range_calls),
+         "end Ec.Gen.WkcEeprom"]
+    return "\n".join(L) + "\n"
